@@ -247,9 +247,24 @@ theorem BallInv.root {m : Metric P α} {node : Ball P α} (h : BallInv m node) :
   | leaf c r pts h => exact h
   | branch c r l rr _ _ h => exact h
 
-/-- contract of `partition`: the two halves together are the input points -/
+/-- contract of `partition`: the two halves together are the input points.  Only asked on inputs
+whose row positions are pairwise distinct — all the builder ever passes (sub-lists of
+`batch.rows().enumerate()`), and what makes it provable for the split the driver replays
+(`Props/C07.scriptSplit_splitPerm`). -/
 def SplitPerm (split : List (Pt P) → Option (List (Pt P) × P × List (Pt P))) : Prop :=
-  ∀ pts a c b, split pts = some (a, c, b) → (a ++ b).Perm pts
+  ∀ pts a c b, (pts.map (·.2)).Nodup → split pts = some (a, c, b) → (a ++ b).Perm pts
+
+/-- the row positions of `batch.rows().enumerate()` are pairwise distinct -/
+theorem enumerate_nodup (rows : List P) : ((enumerate rows).map (·.2)).Nodup := by
+  unfold enumerate
+  rw [List.zipIdx_map_snd]
+  exact List.nodup_range'
+
+theorem nodup_halves {a b pts : List (Pt P)} (hp : (a ++ b).Perm pts) (hnd : (pts.map (·.2)).Nodup) :
+    (a.map (·.2)).Nodup ∧ (b.map (·.2)).Nodup := by
+  have h1 : ((a ++ b).map (·.2)).Nodup := ((hp.map (·.2)).nodup_iff).mpr hnd
+  rw [List.map_append] at h1
+  exact ⟨(List.nodup_append.mp h1).1, (List.nodup_append.mp h1).2.1⟩
 
 theorem leafOf_points (m : Metric P α) (mean : List P → P) (pts : List (Pt P)) :
     (leafOf m mean pts).points = pts := rfl
@@ -265,7 +280,7 @@ theorem leafOf_inv {m : Metric P α} (h : Lawful m) (mean : List P → P) (pts :
 
 theorem build_perm {m : Metric P α} {mean : List P → P}
     {split : List (Pt P) → Option (List (Pt P) × P × List (Pt P))} (hs : SplitPerm split)
-    (leafSize fuel : Nat) (pts : List (Pt P)) :
+    (leafSize fuel : Nat) (pts : List (Pt P)) (hnd : (pts.map (·.2)).Nodup) :
     (build m mean split leafSize fuel pts).points.Perm pts := by
   induction fuel generalizing pts with
   | zero => simp [build, leafOf_points]
@@ -277,11 +292,13 @@ theorem build_perm {m : Metric P α} {mean : List P → P}
       · simp [leafOf_points]
       · rename_i a c b heq
         simp only [Ball.points]
-        exact ((ih a).append (ih b)).trans (hs _ _ _ _ heq)
+        have hp := hs _ _ _ _ hnd heq
+        obtain ⟨ha, hb⟩ := nodup_halves hp hnd
+        exact ((ih a ha).append (ih b hb)).trans hp
 
 theorem build_inv {m : Metric P α} (h : Lawful m) {mean : List P → P}
     {split : List (Pt P) → Option (List (Pt P) × P × List (Pt P))} (hs : SplitPerm split)
-    (leafSize fuel : Nat) (pts : List (Pt P)) :
+    (leafSize fuel : Nat) (pts : List (Pt P)) (hnd : (pts.map (·.2)).Nodup) :
     BallInv m (build m mean split leafSize fuel pts) := by
   induction fuel generalizing pts with
   | zero => exact leafOf_inv h mean pts
@@ -292,10 +309,11 @@ theorem build_inv {m : Metric P α} (h : Lawful m) {mean : List P → P}
     · split
       · exact leafOf_inv h mean pts
       · rename_i a c b heq
-        refine BallInv.branch _ _ _ _ (ih a) (ih b) ?_
+        obtain ⟨ha, hb⟩ := nodup_halves (hs _ _ _ _ hnd heq) hnd
+        refine BallInv.branch _ _ _ _ (ih a ha) (ih b hb) ?_
         intro x hx
         apply calcRadius_ge h
-        exact (((build_perm hs leafSize n a).append (build_perm hs leafSize n b)).subset hx)
+        exact (((build_perm hs leafSize n a ha).append (build_perm hs leafSize n b hb)).subset hx)
 
 /-- **soundness of the pruning bound**: nothing in the ball is nearer (in reduced distance) than `lower` -/
 theorem lower_le {m : Metric P α} (h : Lawful m) (q : P) {node : Ball P α} (hn : BallInv m node) :
